@@ -251,6 +251,15 @@ def coq_build(targets, timeout=3000):
         t0 = time.time()
         rc, out = sh(['make', '-j%d' % NCPU] + list(targets), cwd=COQ, timeout=timeout)
         log('[coq] make %s -> rc=%d in %.1fs' % (' '.join(targets), rc, time.time() - t0))
+        # a coqc process killed from outside (out-of-memory killer, signal) is not a broken proof: try again with
+        # little parallelism, and if it is killed again report a machinery error, never a violation
+        killed = r'Error 1(37|43)\b|[Kk]illed|[Oo]ut of memory|Cannot allocate memory'
+        if rc != 0 and re.search(killed, out):
+            t0 = time.time()
+            rc, out = sh(['make', '-j3'] + list(targets), cwd=COQ, timeout=timeout)
+            log('[coq] (retry after a killed coqc) make -j3 %s -> rc=%d in %.1fs' % (' '.join(targets), rc, time.time() - t0))
+            if rc != 0 and re.search(killed, out):
+                raise MachineryError('coqc was killed from outside (memory / signal) while building %s:\n%s' % (' '.join(targets), out[-1500:]))
         return rc == 0, out
 
 
@@ -289,6 +298,17 @@ def count_obligations(prop_file):
     return n, files
 
 
+def count_obligations_file(f):
+    """number of statements with a proof in one file (used for files a property adds through EXTRA_PROP_FILES)"""
+    try:
+        src = open(os.path.join(COQ, f)).read()
+    except FileNotFoundError:
+        return 0
+    src = re.sub(r'\(\*.*?\*\)', '', src, flags=re.S)
+    return len(re.findall(r'^\s*(?:Local\s+|Global\s+|#\[[^\]]*\]\s*)?(?:Theorem|Lemma|Corollary|Fact|Proposition|Example|Remark)\s+\w+',
+                          src, flags=re.M))
+
+
 def coq_hygiene():
     bad = []
     for f in coq_files():
@@ -307,31 +327,49 @@ def theorem_names(prop_file):
 
 
 def print_assumptions(prop_id, prop_file):
-    """Returns (ok, {theorem: [axioms]}, log)."""
+    """Returns (ok, {theorem: [axioms]}, log).  The theorems are spread over a few coqc processes (each Print Assumptions
+    walks the whole dependency graph of its theorem, which takes seconds per theorem on the large developments)."""
     names = theorem_names(prop_file)
     mod = 'V.' + prop_file[:-2].replace('/', '.')
     d = os.path.join(BUILD, 'pa')
     os.makedirs(d, exist_ok=True)
-    f = os.path.join(d, 'PA_%s.v' % prop_id)
-    body = 'Require Import %s.\n' % mod + ''.join('Print Assumptions %s.\n' % n for n in names)
-    open(f, 'w').write(body)
-    rc, out = sh(['coqc', '-noglob', '-Q', COQ, 'V', f], cwd=d, timeout=600)
-    if rc != 0:
-        return False, {}, out
-    blocks = re.split(r'(?m)^(?=Closed under the global context|Axioms:)', out)
-    blocks = [b for b in blocks if b.strip()]
+    tag = 'PA_%s_%s' % (prop_id, re.sub(r'\W', '_', prop_file[:-2]))
+    nproc = max(1, min(8, len(names) // 3))
+    groups = [names[i::nproc] for i in range(nproc)]
+
+    def run(k):
+        f = os.path.join(d, '%s_%d.v' % (tag, k))
+        body = 'Require Import %s.\n' % mod + ''.join('Print Assumptions %s.\n' % n for n in groups[k])
+        open(f, 'w').write(body)
+        rc, out = sh(['coqc', '-noglob', '-Q', COQ, 'V', f], cwd=d, timeout=900)
+        if rc != 0:
+            return False, {}, out
+        blocks = re.split(r'(?m)^(?=Closed under the global context|Axioms:)', out)
+        blocks = [b for b in blocks if b.strip()]
+        res = {}
+        ok = len(blocks) == len(groups[k])
+        for n, b in zip(groups[k], blocks):
+            if b.startswith('Closed'):
+                res[n] = []
+            else:
+                ax = re.findall(r"(?m)^([A-Za-z_][\w\.\']*)\s*:", b)
+                res[n] = ax
+                for a in ax:
+                    if a not in ALLOWED_AXIOMS and a.split('.')[-1] not in ALLOWED_AXIOMS:
+                        ok = False
+        return ok, res, out
+
+    with cf.ThreadPoolExecutor(max_workers=nproc) as ex:
+        parts = list(ex.map(run, range(nproc)))
+    ok = all(p[0] for p in parts)
     res = {}
-    ok = len(blocks) == len(names)
-    for n, b in zip(names, blocks):
-        if b.startswith('Closed'):
-            res[n] = []
-        else:
-            ax = re.findall(r'(?m)^([A-Za-z_][\w\.\']*)\s*:', b)
-            res[n] = ax
-            for a in ax:
-                if a not in ALLOWED_AXIOMS and a.split('.')[-1] not in ALLOWED_AXIOMS:
-                    ok = False
-    return ok, res, out
+    for n in names:                      # keep the order of the property file
+        for p in parts:
+            if n in p[1]:
+                res[n] = p[1][n]
+    if ok and len(res) != len(names):
+        ok = False
+    return ok, res, '\n'.join(p[2] for p in parts)
 
 
 def coq_eval(tag, imports, exprs, timeout=1200, shard=None, preamble='', tolerate=False):
